@@ -36,13 +36,10 @@ TApplied == /\ IsEv("applied") /\ Adv /\ Stutter
             /\ LET st == stack[WorkerOfFile(Ev.target)][Len(stack[WorkerOfFile(Ev.target)])] IN
                st.idx = Ev.idx + 1 /\ st.target = Ev.target /\ st.final = Ev.final /\ (st.failed = {}) = Ev.ok
 TRefused == IsEv("rename-refused") /\ Adv /\ Stutter
-TPhase == /\ IsEv("phase") /\ Adv
-          /\ IF Ev.name = "reject" THEN BarrierApply ELSE BarrierReject
+TPhase == IsEv("phase") /\ Adv /\ BarrierApply
 TRejCreate == /\ IsEv("rej-create") /\ Adv
-              /\ LET w == WorkerOfFile(Ev.target) IN
-                 /\ wpc[w] = "rej" /\ stack[w] # <<>>
-                 /\ LET st == stack[w][Len(stack[w])] IN st.idx = final /\ st.failed # {} /\ st.target = Ev.target
-                 /\ RejStep(w)
+              /\ mainpc = "rejects" /\ \E r \in rejq : r.path = Ev.target /\ (\A q \in rejq : q.path = r.path => r.n <= q.n)
+                                                        /\ RejStep /\ rejq' = rejq \ {r}
 TUnlink == /\ IsEv("unlink") /\ Adv
            /\ LET w == WorkerOfFile(Ev.path) IN
               /\ wpc[w] = "save" /\ cur[w].stage = "none" /\ mem[w][Ev.path].loaded /\ mem[w][Ev.path].existed
@@ -63,7 +60,7 @@ TReaddir == /\ IsEv("readdir") /\ Adv
             /\ IF Ev.path = "" THEN Stutter
                ELSE IF Ev.path \in cleanq THEN mainpc = "clean" /\ CleanStep /\ cleanq' = cleanq \ {Ev.path}
                \* several workers may have listed the same directory: the later visits find it gone or non-empty
-               ELSE mainpc \in {"clean", "record"} /\ Stutter
+               ELSE mainpc \in {"clean", "rejects", "record"} /\ Stutter
 TFinish == IsEv("pc-mkdir") /\ Adv /\ Finish
 TAppend == IsEv("append") /\ Adv /\ Stutter /\ mainpc = "exit" /\ applied > 0
 \* events without a model counterpart of their own (sub-steps of an operation already taken)
@@ -77,14 +74,13 @@ Silent ==
   /\ UNCHANGED <<t, l>>
   /\ \/ \E w \in Workers : wpc[w] = "apply" /\ queue[w] = <<>> /\ Consider(w)
      \/ \E w \in Workers : RollPast(w)
-     \/ \E w \in Workers : /\ wpc[w] = "rej" /\ RejStep(w)
-                           /\ (stack[w] = <<>> \/ stack[w][Len(stack[w])].idx < final \/ stack[w][Len(stack[w])].failed = {})
      \/ \E w \in Workers : /\ wpc[w] = "save" /\ cur[w].stage = "none" /\ SaveStep(w)
                            /\ (Unsaved(w) = {} \/ \E p \in Unsaved(w) : ~mem[w][p].existed /\ (mem'[w][p].loaded = FALSE \/ cur'[w].p = p))
      \/ \E w \in Workers : /\ wpc[w] = "backup" /\ BackupStep(w)
                            /\ (~DoBackup \/ stack[w] = <<>> \/ stack[w][Len(stack[w])].idx < DownTo)
      \/ Join
      \/ (mainpc = "clean" /\ cleanq = {} /\ CleanStep)
+     \/ (mainpc = "rejects" /\ rejq = {} /\ RejStep)
      \/ (mainpc = "record" /\ scn.cfg.dry /\ Finish)
 TInit == \E k \in 1..Len(Rec) : t = k /\ l = 1 /\ InitWith(Rec[k].scn)
 TNext == \/ TConsider \/ TApplied \/ TRefused \/ TPhase \/ TRejCreate \/ TUnlink \/ TMkdir \/ TCreate \/ TBackup
